@@ -486,13 +486,17 @@ def minimise(machine, case, clause, max_evals=1200, guard_s=10.0, prelude=()):
         improved = True
         while improved and budget[0] > 0:
             improved = False
-            for cand in machine.shrink(case):
-                if budget[0] <= 0:
-                    break
-                if _same(machine, cand, clause, budget, guard_s, prelude):
-                    case = json.loads(json.dumps(cand))
-                    improved = True
-                    break
+            try:
+                for cand in machine.shrink(case):
+                    if budget[0] <= 0:
+                        break
+                    if _same(machine, cand, clause, budget, guard_s, prelude):
+                        case = json.loads(json.dumps(cand))
+                        improved = True
+                        break
+            except Exception:  # noqa: BLE001 - a shrinker bug only costs minimality, never the verdict
+                traceback.print_exc()
+                break
     res = eval_isolated(machine, list(prelude) + [case], guard_s)
     out = Outcome()
     out.violation = res["violation"]
